@@ -120,6 +120,7 @@ def check(prop, tier, replay=None):
                             c['id'], rep, cyc, c['kindA'], json.dumps(out, sort_keys=True)[:500])))
         # (3) the per-replica guarantees, on what each replica received in the joint run
         C.write_ndjson(os.path.join(sd, 'pairs.ndjson'), pairs)
+        CY.write_no_groups(sd, pairs)
         ev = C.tlc(sd, 'RebalanceEval', 'eval.cfg', cfg_text='', workers=1, timeout=3000, heap='12g')
         C.require_ok(ev, 'RebalanceEval (per replica)')
         for v in C.read_ndjson(os.path.join(sd, 'viol.ndjson')):
